@@ -213,6 +213,62 @@ def main(ctx):
                     lunits.append((descr, nrows, layout, wsel))
     ctx.lattice("input-layouts", lunits, one_layout, bounds=dict(layouts=T.LAYOUTS[1:], rows=[1, 2, 5]))
 
+    # ------------------------- (a3) hostile bytes at the start / end of the data section
+    PATTERNS = [b"\n", b"\n\n\n\n", b"\nEND\n\n", b"END", b" ", b"\r\n", b"SIZE = 1\n", b"\x00", b"\xff", b"}\n"]
+
+    def one_hostile(case, rec):
+        descr, nrows, pi, where, writer = case
+        pat = PATTERNS[pi]
+        want = T.make_table(descr, nrows, seed=ctx.seed)
+        raw = want.view("u1").reshape(nrows, -1)
+        row = 0 if where == "first" else nrows - 1
+        fill = (pat * (raw.shape[1] // len(pat) + 1))[:raw.shape[1]]
+        raw[row, :] = np.frombuffer(fill, dtype="u1")
+        # run the ordinary round trip on exactly these bytes
+        d = want.copy()
+        fn = os.path.join(rec.tmp, "c01x.rec")
+        if os.path.exists(fn):
+            os.unlink(fn)
+        try:
+            do_write(writer, fn, d, {"k": 1})
+        except Exception as e:
+            return rec.fail(case, "%s raised %s: %s" % (writer, type(e).__name__, str(e)[:200]))
+        rawf = open(fn, "rb").read()
+        offset = len(rawf) - want.nbytes
+        if offset <= 0 or rawf[offset:] != want.tobytes():
+            return rec.fail(case, "%s: the file does not end with the table's bytes" % writer)
+        calls = 1
+        for reader in READERS:
+            try:
+                out, h = do_read(reader, fn, want, offset)
+            except Exception as e:
+                return rec.fail(case, "%s -> %s raised %s: %s" % (writer, reader, type(e).__name__, str(e)[:200]))
+            calls += 1
+            m = T.same_table(out, want)
+            if m:
+                return rec.fail(case, "%s -> %s: %s" % (writer, reader, m))
+            if h is not None:
+                m = check_header(h, want, {"k": 1})
+                if m:
+                    return rec.fail(case, "%s -> %s: %s" % (writer, reader, m))
+        # partial reads must see the same bytes (slice / single row / column)
+        with sfile.SFile(fn) as sf:
+            calls += 3
+            name0 = want.dtype.names[0]
+            if sf[0:1].tobytes() != want[0:1].tobytes() or sf[nrows - 1].tobytes() != want[nrows - 1:].tobytes() \
+                    or np.ascontiguousarray(sf[name0][:]).tobytes() != np.ascontiguousarray(want[name0]).tobytes():
+                return rec.fail(case, "%s: a partial read (slice / last row / first column) differs from the table" % writer)
+        rec.ok(case, outcome="hostile-bytes-ok", nontrivial=True, calls=calls)
+
+    xunits = []
+    for descr in tables[:n1:2] + tables[n1:n1 + 4]:
+        for nrows in (1, 3):
+            for pi in range(len(PATTERNS)):
+                for where in ("first", "last"):
+                    xunits.append((descr, nrows, pi, where, "sfile.write(fn,d)"))
+    ctx.lattice("hostile-data-bytes", xunits, one_hostile,
+                bounds=dict(patterns=[repr(x) for x in PATTERNS], rows=[1, 3]))
+
     # ----------------------------------------------------------- (b) headers
     HD = [("a", ">i4"), ("s", "S3"), ("x", "<f8", (2,))]
 
